@@ -1269,3 +1269,26 @@ func init() {
 	}
 `}}})
 }
+
+func init() {
+	addMutant(Mutant{Name: "c01-header-subslices-swapped", Props: []string{"C01", "C02"}, Rule: "R-LAYOUT", KeySub: "Header:encoder",
+		Why: "the header encoder is rewritten with named sub-slices and the session id and length land in each other's place",
+		Edits: []Edit{{File: "header.go", Old: `	binary.BigEndian.PutUint32(buf[4:], uint32(h.SessionID))
+	binary.BigEndian.PutUint32(buf[8:], h.Length)`, New: `	sessionID, length := buf[8:MaxHeaderLength], buf[4:8]
+	binary.BigEndian.PutUint32(sessionID, uint32(h.SessionID))
+	binary.BigEndian.PutUint32(length, h.Length)`}}})
+	addMutant(Mutant{Name: "c01-packet-copy-body-first", Props: []string{"C01", "C02"}, Rule: "R-LAYOUT", KeySub: "Packet:encoder",
+		Why: "the packet encoder is rewritten with make+copy and copies the body before the header",
+		Edits: []Edit{{File: "packet.go", Old: `	buf := make([]byte, 0, len(head)+len(p.Body))
+	buf = append(buf, head...)
+	buf = append(buf, p.Body...)
+	return buf, nil`, New: `	buf := make([]byte, len(head)+len(p.Body))
+	n := copy(buf, p.Body)
+	copy(buf[n:], head)
+	return buf, nil`}}})
+	addMutant(Mutant{Name: "c01-header-decoder-octets-crossed", Props: []string{"C01", "C02", "C19"}, Rule: "R-LAYOUT", KeySub: "Header:decoder",
+		Why: "the header decoder, rewritten as a tuple assignment, reads the flags from the sequence octet and vice versa",
+		Edits: []Edit{{File: "header.go", Old: `	h.Type = HeaderType(data[1])
+	h.SeqNo = SequenceNumber(data[2])
+	h.Flags = HeaderFlag(data[3])`, New: `	h.Type, h.SeqNo, h.Flags = HeaderType(data[1]), SequenceNumber(data[3]), HeaderFlag(data[2])`}}})
+}
